@@ -23,9 +23,13 @@ func NewFuture[T vivid.Message](liaison vivid.ActorLiaison, timeout time.Duratio
 	}
 
 	if timeout > 0 {
+		// 回调在独立协程中执行并会读取 future.timer：必须等赋值完成后才能继续，否则极短超时下构成数据竞争
+		armed := make(chan struct{})
 		future.timer = time.AfterFunc(timeout, func() {
+			<-armed
 			future.Close(vivid.ErrorFutureTimeout)
 		})
+		close(armed)
 	}
 
 	return future
